@@ -263,6 +263,10 @@ func (c *rpcComp) Exec(t []string) (extra []string, out string, eff bool) {
 					c.codec.mu.Unlock()
 					// the reply reaches the read loop before the caller has started to wait
 					c.inject(replyMessage(id, "result", early))
+					if _, both := FindStr("cancelearly", t); both {
+						// ... and the caller's context ends at the same moment: the call may return either
+						cancel()
+					}
 				}
 			}
 			c.codec.mu.Unlock()
@@ -325,6 +329,14 @@ func (c *rpcComp) Exec(t []string) (extra []string, out string, eff bool) {
 		select {
 		case o := <-lc.done:
 			delete(c.calls, t[1])
+			if want, racy := FindStr("race", t); racy {
+				// reply and cancellation were both there when the caller looked: its own reply or the context's
+				// error are both right, anything else is not
+				if o == "err ctx" || o == "returned "+Tok(want) {
+					return nil, "settled", false
+				}
+				return nil, "wrong " + o, false
+			}
 			return nil, o, false
 		case <-time.After(150 * time.Millisecond):
 			return nil, "pending", false
@@ -413,9 +425,12 @@ func (c *rpcComp) Gen(r *rand.Rand, idx int, emit func(string)) {
 			token := fmt.Sprintf("t%d", tok)
 			tok++
 			nextID++
-			if r.Intn(8) == 0 {
+			if k8 := r.Intn(8); k8 == 0 {
 				emit(fmt.Sprintf("call %s early=%s", token, "e"+token))
 				emit("await " + token)
+			} else if k8 == 1 {
+				emit(fmt.Sprintf("call %s early=%s cancelearly=1", token, "e"+token))
+				emit(fmt.Sprintf("await %s race=%s", token, "e"+token))
 			} else {
 				emit("call " + token)
 				liveIDs = append(liveIDs, nextID)
